@@ -32,9 +32,9 @@ import vlib
 from gen import multirun as M
 
 ID = "C10"
-PROPS = ["IsoVerif/Props/C10.lean", "IsoVerif/Props/C10Names.lean"]
-TARGETS = ["IsoVerif.Props.C10", "IsoVerif.Props.C10Names"]
-GEN_DEPS = ["SharedState", "SampleState", "SampleNames", "Strategies"]
+PROPS = ["IsoVerif/Props/C10.lean", "IsoVerif/Props/C10Names.lean", "IsoVerif/Props/C10Folders.lean"]
+TARGETS = ["IsoVerif.Props.C10", "IsoVerif.Props.C10Names", "IsoVerif.Props.C10Folders"]
+GEN_DEPS = ["SharedState", "SampleState", "SampleNames", "SampleNamePolicy", "Strategies"]
 LEVEL = "proof"
 RULE = ("in-process: exhaustive strategy table; all presets; seeded histories of 1-5 samples x 8 presets x 3 polyA "
         "strategies x 3 read-group options; seeded histories of 1-4 fake genes (<=4 FL paths, <=3 mono, <=3 non-FL "
@@ -48,7 +48,12 @@ TRUSTED = ["Gen/SharedState.lean + Gen/SampleState.lean: AST inventory of class-
            "Gen/SampleNames.lean: the test before the positional renaming of a duplicate experiment name, read off the AST of "
            "both description parsers (exact statement shapes, TranslationError otherwise); cross-checked by the parser "
            "correspondence on descriptions with colliding names",
-           "os.path.join(<output>, name) maps different experiment names to different folders (names without a path separator)",
+           "Gen/SampleNamePolicy.lean: str() of the YAML name, blank name -> positional, check_experiment_name before every "
+           "SampleData, one BAM file per list line - four exact AST shapes (TranslationError otherwise); cross-checked by the "
+           "parser correspondence on non-string / path-like names and multi-file lines",
+           "what a path means (Model/SampleFolders.lean resolveL: '' and '.' skipped, '..' steps back, no symbolic links inside "
+           "the output folder) - compared with os.path.normpath on generated absolute paths; Python's str() of a YAML scalar "
+           "that is neither str, int nor bool is taken as given",
            "harness/c10_wrap.py (monkeypatch tracer, nothing inside /repo)",
            "the heuristics of a sample (assignment, intron graph, filters) are data of the model: their independence "
            "of process state is watched by the pipeline oracle, not proved"]
@@ -56,12 +61,14 @@ ASSUMPTIONS = ["polya_fraction >= threshold is compared as 1000*polya >= permill
                "fork semantics of ProcessPoolExecutor workers: class-level state is copied at pool creation and "
                "never returns to the parent; pool.map returns results in submission order",
                "combined tables are compared as maps feature -> numeric cells (pandas re-formats 3.00 as 3.0 and "
-               "orders rows itself); feature ids are not numeric and not NA-like strings",
-               "experiments of one invocation share reference and annotation; their names need NOT be distinct or explicit: "
-               "the parser makes them distinct or exits (Props/C10Names.lean); the per-entry theorems of Props/C10.lean "
-               "keep the hypothesis of explicit distinct names"]
+               "orders rows itself); feature ids are arbitrary strings (numeric-looking and NA-like ones included)",
+               "experiments of one invocation share reference and annotation; their names need NOT be distinct, explicit, strings "
+               "or folder names: the parser makes them distinct strings that are entries of the output folder or exits "
+               "(Props/C10Names.lean, Props/C10Folders.lean); the per-entry theorems of Props/C10.lean keep the hypothesis of "
+               "explicit distinct names"]
 
 WRAP = os.path.join(vlib.HERE, "c10_wrap.py")
+YAML_NULL = {"yaml": "null"}      # `name:` with a blank value (safe_load gives None), as opposed to an absent key (None in the payload)
 PRESETS = ["reliable", "default_pacbio", "sensitive_pacbio", "default_ont", "sensitive_ont", "fl_pacbio", "all", "assembly"]
 POLYA = ["auto", "never", "always"]
 KF_KIND = "read_group_auto_from_other_experiment"
@@ -400,7 +407,7 @@ def yaml_doc(entries):
     for e in entries:
         d = {}
         if e["name"] is not None:
-            d["name"] = e["name"]
+            d["name"] = None if e["name"] == YAML_NULL else e["name"]       # YAML_NULL: the key is there, its value is blank
         if e["files"] is not None:
             d["long read files"] = [f[0] for f in e["files"]]
         if e["labels"] is not None:
@@ -421,8 +428,13 @@ def list_text(lines):
     return "\n".join(out) + "\n"
 
 
-def impl_parse(scratch, kind, prefix, payload):
-    """the real InputDataStorage on a description file -> parsed samples (as the model prints them) or the error enum"""
+OUT_SHAPES = ["/vol/out", "/vol/out/", "/vol/./runs/../out", "rel/out", "/"]
+
+
+def impl_parse(scratch, kind, prefix, payload, output="/vol/out"):
+    """the real InputDataStorage on a description file -> parsed samples (as the model prints them), {"error": "exit"} for a
+    clean refusal (SystemExit) or {"traceback": <exception>} when the parser dies with an exception (NOT an error value: a
+    description that kills the invocation with a TypeError is not "refused")"""
     vlib.repo_on_path()
     import contextlib
     import io
@@ -436,19 +448,43 @@ def impl_parse(scratch, kind, prefix, payload):
             yaml.safe_dump(yaml_doc(payload), f)
         else:
             f.write(list_text(payload))
-    args = SimpleNamespace(fastq=None, bam=None, fastq_list=None, bam_list=path if kind == "list" else None,
+    args = SimpleNamespace(fastq=None, bam=None, fastq_list=path if kind == "fqlist" else None,
+                           bam_list=path if kind == "list" else None,
                            read_assignments=None, yaml=path if kind == "yaml" else None, prefix=prefix, labels=None,
-                           output=os.path.join(d, "out"), illumina_bam=None)
+                           output=output, illumina_bam=None)
     try:
         with contextlib.redirect_stdout(io.StringIO()):
             ids = InputDataStorage(args)
     except SystemExit:
         return {"error": "exit"}
-    except (KeyError, IndexError, TypeError, AttributeError) as ex:
-        return {"error": "error", "exc": type(ex).__name__}
+    except Exception as ex:
+        return {"traceback": type(ex).__name__}
     return [{"name": smp.prefix, "libs": [list(lib) for lib in smp.file_list],
              "readable": [[k, v] for k, v in smp.readable_names_dict.items()],
-             "illumina": None if smp.illumina_bam is None else list(smp.illumina_bam)} for smp in ids.samples]
+             "illumina": None if smp.illumina_bam is None else list(smp.illumina_bam),
+             "out_dir": smp.out_dir, "assigned_tsv": smp.out_assigned_tsv} for smp in ids.samples]
+
+
+def model_name(n):
+    """a YAML `name` value as the model reads it"""
+    if n is None:
+        return {"kind": "absent"}
+    if n == YAML_NULL:
+        return {"kind": "null"}
+    if isinstance(n, bool):
+        return {"kind": "bool", "value": n}
+    if isinstance(n, int):
+        return {"kind": "int", "value": n}
+    if isinstance(n, str):
+        return {"kind": "str", "value": n}
+    return {"kind": "other", "value": str(n)}          # floats, dates, lists: Python's str() is taken as given
+
+
+def describe_req(kind, prefix, payload, output="/vol/out"):
+    if kind == "yaml":
+        return vlib.req("C10.describe_yaml", prefix=prefix, output=output,
+                        entries=[dict(e, name=model_name(e["name"])) for e in payload])
+    return vlib.req("C10.describe_list", prefix=prefix, output=output, bam=(kind == "list"), lines=payload)
 
 
 def gen_yaml_entry(rng, name, pool):
@@ -493,21 +529,31 @@ def gen_parse_cases(ctx):
             perms = rng.sample(perms, 6)
         for p in perms:
             cases.append(("yaml", "X", list(p)))
+    pool_bam, pool_fq = pool, ["/data/run%d/reads_%d.fastq" % (i % 3, i) for i in range(8)]
     for _ in range(60 if ctx.tier == "quick" else 600):
         lines = []
+        # --bam_list (one BAM file per line is the documented format; a line with two is in the malformed stream) and
+        # --fastq_list (a line is a library, it may hold several files)
+        lkind = "list" if rng.random() < 0.6 else "fqlist"
+        pool = pool_bam if lkind == "list" else pool_fq
+        multi = [1, 1, 2] if lkind == "fqlist" or rng.random() < 0.25 else [1]
         if rng.random() < 0.85:
             lines.append({"header": "S0"})
         for i in range(rng.randint(1, 4)):
             for _ in range(rng.choice([0, 1, 1, 2])):
-                fs = rng.sample(pool, rng.choice([1, 1, 2]))
+                fs = rng.sample(pool, rng.choice(multi))
                 lines.append({"files": [[f, _stem(f)] for f in fs], "label": rng.choice([None, None, "lab%d" % i])})
             r = rng.random()
             lines.append({"header": "" if r < 0.15 else ("S0" if r < 0.25 else ("X%d" % (i + 1) if r < 0.3 else "S%d" % (i + 1)))})
         if rng.random() < 0.7:
             fs = rng.sample(pool, 1)
             lines.append({"files": [[f, _stem(f)] for f in fs], "label": None})
-        cases.append(("list", "X", lines))
+        cases.append((lkind, "X", lines))
     return cases
+
+
+def is_tb(x):
+    return isinstance(x, dict) and "traceback" in x
 
 
 def parse_property(kind, prefix, payload):
@@ -528,10 +574,12 @@ def parse_property(kind, prefix, payload):
                     blocks[-1].append(l)
                 else:
                     return None                  # files before the first header: named by the prefix (outside the domain)
-        if any(not n for n in names) or len(set(names)) != len(names):
-            return None
+        if any(not isinstance(n, str) or not n for n in names) or len(set(names)) != len(names):
+            return None                          # reading rule (c): explicit, pairwise distinct names (strings)
         joint = impl_parse(scratch, kind, prefix, payload)
         alone = [impl_parse(scratch, kind, prefix, b) for b in blocks]
+        if is_tb(joint) or any(is_tb(a) for a in alone):
+            return "the parser dies with an exception: joint description %s, stand-alone descriptions %s" % (joint, alone)
         if vlib.is_err(joint) or any(vlib.is_err(a) for a in alone):
             if vlib.is_err(joint) != any(vlib.is_err(a) for a in alone):
                 return "joint description %s, stand-alone descriptions %s" % (joint, alone)
@@ -549,7 +597,12 @@ def parse_property(kind, prefix, payload):
 
 # --- experiment names (audit finding G4): duplicate / missing names are renamed to <prefix><position>
 
+# Names are whatever a description can say (the statement quantifies over "several experiments from one YAML or list file",
+# not over well-chosen names): strings, YAML scalars that are not strings (`name: 7`, `name: true`, `name: 1.5`), a key with a
+# blank value (`name:` -> None), the empty string, names that are paths (`./D`, `D/`, `d/E`, `/abs/E`, `.`, `..`).
 NAME_POOL = ["D", "D", "E", None, None, "X0", "X1", "X2", "X3", "X4"]
+ODD_NAMES = [7, 7, "7", True, 1.5, YAML_NULL, "", "./D", "D/", "d/E", "/abs/E", ".", "..", "E/../D", " D", "2"]
+LIST_ODD_NAMES = ["./D", "D/", "d/E", "/abs/E", ".", "..", "E/../D", " D", "7", "2"]     # a header line is always a string
 
 
 def _named_yaml(names, pool, empty=()):
@@ -568,29 +621,45 @@ def _named_list(names, pool, empty=(), lead=False):
 
 def gen_name_cases(ctx):
     """descriptions OUTSIDE reading rule (c): duplicate and missing names, drawn so that the positional name
-    <prefix><position> a duplicate is renamed to is often an explicit name or an earlier generated one (prefix X)"""
+    <prefix><position> a duplicate is renamed to is often an explicit name or an earlier generated one (prefix X);
+    names that are not strings or not folder names (audit-2 GAP C10-1).  -> (kind, prefix, payload, output folder)"""
     rng = ctx.rng
     pool = ["/data/run%d/reads_%d.bam" % (i % 3, i) for i in range(8)]
     fixed = [["X2", "D", "D"], ["D", "X2", "D"], ["X3", "D", "D", "D"], ["D", "D", "X1"], [None, "X0"], ["X1", None],
              ["D", "D"], ["D", "D", "D"], [None, None, "X0", "X1"], ["X2", "D", None], ["X", "X", "X1"]]
+    odd_yaml = [["D", "./D"], ["D/", "D"], [7, "E"], ["E", 7], [7, "7"], [7, 7, "X1"], [YAML_NULL, "E"], ["E", YAML_NULL], ["", "E"],
+                ["E", ""], [True, "E"], [1.5, 2], ["d/E", "E"], [".", "E"], ["..", "E"], ["/abs/E", "E"], ["E/../D", "D"],
+                [YAML_NULL, "X0"], ["", "", "X1"], [7], ["./D"], ["D"], [" D", "D"]]
+    odd_list = [["D", "./D"], ["D/", "D"], ["d/E", "E"], [".", "E"], ["..", "E"], ["/abs/E", "E"], ["E/../D", "D"], ["./D"], [" D", "D"]]
     cases = []
     for names in fixed:
-        cases.append(("yaml", "X", _named_yaml(names, pool)))
-        cases.append(("list", "X", _named_list(names, pool)))
-    cases.append(("yaml", "X", _named_yaml(["X2", "D", "D", "D"], pool, empty=(2,))))      # the renamed duplicate has no files
-    cases.append(("list", "X", _named_list(["X2", "D", "D"], pool, lead=True)))             # files before the first header
-    cases.append(("list", "X", _named_list(["X", "X3", "D", "D"], pool, lead=True)))
-    for _ in range(40 if ctx.tier == "quick" else 400):
+        cases.append(("yaml", "X", _named_yaml(names, pool), "/vol/out"))
+        cases.append(("list", "X", _named_list(names, pool), "/vol/out"))
+    for names in odd_yaml:
+        cases.append(("yaml", "X", _named_yaml(names, pool), "/vol/out"))
+    for names in odd_list:
+        cases.append(("list", "X", _named_list(names, pool), "/vol/out"))
+    cases.append(("yaml", "X", _named_yaml(["X2", "D", "D", "D"], pool, empty=(2,)), "/vol/out"))      # the renamed duplicate has no files
+    cases.append(("yaml", "X", _named_yaml(["./D", "D"], pool, empty=(0,)), "/vol/out"))               # the path-like name has no files
+    cases.append(("list", "X", _named_list(["X2", "D", "D"], pool, lead=True), "/vol/out"))            # files before the first header
+    cases.append(("list", "X", _named_list(["X", "X3", "D", "D"], pool, lead=True), "/vol/out"))
+    cases.append(("list", "./X", _named_list(["D"], pool, lead=True), "/vol/out"))                     # the prefix itself is a path
+    cases.append(("yaml", "d/X", _named_yaml(["D", "D"], pool), "/vol/out"))                           # ... and so is the positional name
+    cases.append(("yaml", "", _named_yaml([None, "0"], pool), "/vol/out"))                             # empty prefix: positional name "0"
+    for _ in range(60 if ctx.tier == "quick" else 600):
         k = rng.randint(2, 5)
-        names = [rng.choice(NAME_POOL) for _ in range(k)]
+        odd = rng.random() < 0.5
+        yaml_mode = rng.random() < 0.5
+        names = [rng.choice(NAME_POOL + ((ODD_NAMES if yaml_mode else LIST_ODD_NAMES) if odd else [])) for _ in range(k)]
         empty = tuple(i for i in range(k) if rng.random() < 0.12)
-        if rng.random() < 0.5:
+        out = rng.choice(OUT_SHAPES) if rng.random() < 0.4 else "/vol/out"
+        if yaml_mode:
             entries = _named_yaml(names, pool, empty)
             if rng.random() < 0.3:
                 entries[rng.randrange(k)]["labels"] = ["lab"]
-            cases.append(("yaml", "X", entries))
+            cases.append(("yaml", "X", entries, out))
         else:
-            cases.append(("list", "X", _named_list(names, pool, empty, lead=rng.random() < 0.25)))
+            cases.append(("list", "X", _named_list(names, pool, empty, lead=rng.random() < 0.25), out))
     return cases
 
 
@@ -611,32 +680,78 @@ def _own_blocks(kind, payload, prefix):
     return blocks
 
 
-def names_property(kind, prefix, payload):
-    """in-process, real parser, ANY names: when the parser accepts a description (no exit) the experiment names - and with
-    them the output folders <out>/<name> - are pairwise distinct, and every experiment holds the files, labels and
-    short reads of its own entry (what the description with this experiment alone, under the name it got, parses to)"""
+def _inside(child, parent):
+    """normalised path `child` is `parent` + exactly one more component"""
+    return os.path.dirname(child) == parent and os.path.basename(child) not in ("", ".", "..")
+
+
+def names_property(kind, prefix, payload, output="/vol/out"):
+    """in-process, real parser, ANY names: a description is either refused cleanly (exit, message) or accepted, never answered
+    with an exception; when accepted, the experiment names are pairwise distinct, the output folders <out>/<name> are
+    pairwise distinct folders directly inside <out> (normalised paths), every file of an experiment lies directly in its own
+    folder, and every experiment holds the files, labels and short reads of its own entry (what the description with this
+    experiment alone, under the name it got, parses to).  -> None or (failure kind, detail)"""
     scratch = tempfile.mkdtemp(prefix="isoverif_c10np_")
     try:
-        joint = impl_parse(scratch, kind, prefix, payload)
+        joint = impl_parse(scratch, kind, prefix, payload, output)
+        if is_tb(joint):
+            return ("description_kills_invocation", "the parser dies with %s instead of using or refusing the experiment names: every "
+                    "experiment of the invocation is lost" % joint["traceback"])
         if vlib.is_err(joint):
             return None                               # loud: the user is told to change the name
         names = [x["name"] for x in joint]
         dup = sorted(set(n for n in names if names.count(n) > 1))
         if dup:
-            return "experiments %s: the name %s is given to %d experiments (one output folder)" % (names, dup[0], names.count(dup[0]))
+            return ("experiment_names_collide", "experiments %s: the name %s is given to %d experiments (one output folder)"
+                    % (names, dup[0], names.count(dup[0])))
+        if any(not isinstance(n, str) for n in names):
+            return ("experiment_names_collide", "experiment names %r: not all strings" % (names,))
+        root = os.path.normpath(output)
+        folders = [os.path.normpath(x["out_dir"]) for x in joint]
+        for i, x in enumerate(joint):
+            for j in range(i):
+                if folders[i] == folders[j]:
+                    return ("experiment_folders_collide", "experiments %r and %r are accepted as two experiments and write into ONE folder "
+                            "%s (%s, %s): the second overwrites the first" % (names[j], names[i], folders[i], joint[j]["out_dir"], x["out_dir"]))
+        for i, x in enumerate(joint):
+            if not _inside(folders[i], root):
+                return ("experiment_files_outside_own_folder", "experiment %r: output folder %s is not a folder of its own directly "
+                        "inside %s" % (names[i], x["out_dir"], output))
+            f = os.path.normpath(x["assigned_tsv"])
+            if not _inside(f, folders[i]) or not os.path.basename(f).startswith(names[i] + "."):
+                return ("experiment_files_outside_own_folder", "experiment %r: file %s does not lie directly in its folder %s"
+                        % (names[i], x["assigned_tsv"], x["out_dir"]))
         blocks = _own_blocks(kind, payload, prefix)
         if len(blocks) != len(joint):
-            return "%d experiments with files in the description, %d parsed" % (len(blocks), len(joint))
+            return ("experiment_names_collide", "%d experiments with files in the description, %d parsed" % (len(blocks), len(joint)))
         for b, x in zip(blocks, joint):
             if kind == "yaml":
-                alone = impl_parse(scratch, kind, prefix, [dict(b[0], name=x["name"])])
+                alone = impl_parse(scratch, kind, prefix, [dict(b[0], name=x["name"])], output)
             else:
-                alone = impl_parse(scratch, kind, prefix, [{"header": x["name"]}] + b)
+                alone = impl_parse(scratch, kind, prefix, [{"header": x["name"]}] + b, output)
             if vlib.is_err(alone) or alone != [x]:
-                return "experiment %s: in the joint description %s, its own entry alone %s" % (x["name"], x, alone)
+                return ("experiment_names_collide", "experiment %s: in the joint description %s, its own entry alone %s" % (x["name"], x, alone))
+        if kind in ("list",):
+            # --bam_list: the run opens the first file of every line (`x[0] for x in file_list`)
+            for x in joint:
+                opened = [lib[0] for lib in x["libs"]]
+                named = [f for lib in x["libs"] for f in lib]
+                if opened != named:
+                    return ("described_file_never_opened", "experiment %s: the description names the BAM files %s, the run opens %s"
+                            % (x["name"], named, opened))
         return None
     finally:
         shutil.rmtree(scratch, ignore_errors=True)
+
+
+def gen_path_cases(ctx):
+    """absolute paths built from the components a name / an output folder can contribute"""
+    rng = ctx.rng
+    comps = ["out", "D", "E", ".", "..", "", "d", "X0", ".D", "D.", "...", " "]
+    res = ["/", "/vol/out/./D", "/vol/out/D/", "/vol/out/E/../D", "/vol/out/..", "/..", "/vol//out"]
+    for _ in range(60 if ctx.tier == "quick" else 600):
+        res.append("/" + "/".join(rng.choice(comps) for _ in range(rng.randint(1, 6))))
+    return [q for q in res if not q.startswith("//") or q.startswith("///")]     # POSIX leaves exactly two leading slashes open
 
 
 def strip_private(x):
@@ -748,6 +863,9 @@ def gen_gene_cases(ctx):
     return cases
 
 
+ID_ODD = ["7", "007", "7.0", "1e3", "-1", "NA", "nan", "NaN", "None", "null", "N/A", "<NA>", "n/a", "#g", "True", "inf"]
+
+
 def gen_tables(ctx):
     rng = ctx.rng
     n = 60 if ctx.tier == "quick" else 600
@@ -756,6 +874,9 @@ def gen_tables(ctx):
         full = rng.random() < 0.5
         k = rng.randint(1, 4)
         feats = ["g%d" % i for i in range(rng.randint(1, 12))]
+        if rng.random() < 0.5:
+            # ids that look like numbers or like pandas' missing values are ids like any other (fix 896585b)
+            feats += rng.sample(ID_ODD, rng.randint(1, 5))
         tables = []
         for e in range(k):
             mine = [f for f in feats if rng.random() < 0.7]
@@ -847,6 +968,12 @@ def _lab_plans(ctx):
          "specs": [E("U", s + 7, 1.0, 1), E("V", s + 8, 0.0, 2)], "orders": "all", "threads": [1, 2], "yaml_orders": 1,
          "trace": False},
     ]
+    if os.environ.get("VERIF_C10_SUFFIX_NAMES") == "1":
+        # experiment names that occur in a file suffix (`a` in .transcript_models.gtf, `reads` in .corrected_reads.bed): audit-2
+        # GAP C10-2, repaired elsewhere (merge_files / rreplace); switched on once that repair is in /repo
+        plans.insert(0, {"id": "suffixnames", "world": s % 1000 + 7, "cfg": {"data_type": "nanopore"},
+                         "specs": [E("Ex1", s + 13, 0.5, 1), E("reads", s + 14, 0.5, 0), E("a", s + 15, 0.5, 2)],
+                         "orders": 3, "threads": [1, 2], "yaml_orders": 1, "trace": False})
     if not quick:
         for i in range(6):
             n = rng.randint(2, 4)
@@ -1130,30 +1257,53 @@ def correspondence(ctx):
                 ctx.disagree("load_chr", c, mm, io)
             elif any(x not in ("noninformative", "dropped") for x in io):
                 ctx.mark_nontrivial(["load_chr", c])
-        # 3c. the description parsers
+        # 3c. the description parsers: parser loop + construction of the samples (names, folders, file paths)
         ctx.extra["name_rule_of_source"] = ctx.driver.run([vlib.req("C10.name_rule_of_source")])[0]
+        ctx.extra["name_policy_of_source"] = ctx.driver.run([vlib.req("C10.name_policy_of_source")])[0]
         ncases = gen_name_cases(ctx)
-        pcases = gen_parse_cases(ctx) + ncases
-        outs = ctx.driver.run([vlib.req("C10.parse_yaml", prefix=pf, entries=pl) if kind == "yaml"
-                               else vlib.req("C10.parse_list", prefix=pf, lines=pl) for kind, pf, pl in pcases])
-        for (kind, pf, pl), mo in zip(pcases, outs):
+        pcases = [c + ("/vol/out",) for c in gen_parse_cases(ctx)] + ncases
+        outs = ctx.driver.run([describe_req(kind, pf, pl, out) for kind, pf, pl, out in pcases])
+        for (kind, pf, pl, out), mo in zip(pcases, outs):
             ctx.evaluations += 1
             ctx.count("op:parse_" + kind)
             if isinstance(mo, dict) and "driver_error" in mo:
-                ctx.disagree("parse_" + kind, {"kind": kind, "prefix": pf, "payload": pl}, mo, None)
+                ctx.disagree("parse_" + kind, {"kind": kind, "prefix": pf, "payload": pl, "output": out}, mo, None)
                 continue
-            io = impl_parse(scratch, kind, pf, pl)
+            io = impl_parse(scratch, kind, pf, pl, out)
             ctx.traces_validated += 1
             if vlib.is_err(mo):
                 ctx.count("model_error")
+            if is_tb(mo) or is_tb(io):
+                ctx.count("parse:traceback")
             given = [e["name"] for e in pl] if kind == "yaml" else [l["header"] for l in pl if "header" in l]
-            renamed = not vlib.is_err(mo) and any(x["name"] not in given for x in mo)
+            ok = not vlib.is_err(mo) and not is_tb(mo)
+            renamed = ok and any(x["name"] not in given for x in mo)
             if renamed:
                 ctx.count("parse:renamed_by_position")
-            if not vlib.same(mo, io):
-                ctx.disagree("parse_" + kind, {"kind": kind, "prefix": pf, "payload": pl}, mo, io)
-            elif not vlib.is_err(mo) and len(mo) > 1:
+            if any(not isinstance(g, str) and g is not None for g in given) and ok:
+                ctx.count("parse:non_string_name_accepted")
+            if any(isinstance(g, str) and ("/" in g or g in ("", ".", "..")) for g in given) and vlib.is_err(mo):
+                ctx.count("parse:path_like_name_refused")
+            same = (mo == io) if (is_tb(mo) or is_tb(io)) else vlib.same(mo, io)
+            if not same:
+                ctx.disagree("parse_" + kind, {"kind": kind, "prefix": pf, "payload": pl, "output": out}, mo, io)
+            elif ok and len(mo) > 1:
                 ctx.mark_nontrivial(["parse", kind, pl])
+        # 3d. the meaning of a path: the model's component walk against os.path.normpath
+        ncs = gen_path_cases(ctx)
+        outs = ctx.driver.run([vlib.req("C10.resolve_path", path=q) for q in ncs])
+        for q, mo in zip(ncs, outs):
+            ctx.evaluations += 1
+            ctx.count("op:resolve_path")
+            if isinstance(mo, dict) and "driver_error" in mo:
+                ctx.disagree("resolve_path", q, mo, None)
+                continue
+            io = [c for c in os.path.normpath(q).split("/") if c]
+            ctx.traces_validated += 1
+            if mo != io:
+                ctx.disagree("resolve_path", q, mo, io)
+            elif len(io) > 1:
+                ctx.mark_nontrivial(["resolve_path", q])
         # 4. combine_table
         tcases = gen_tables(ctx)
         outs = ctx.driver.run([vlib.req("C10.combine_table", full=f, tables=t) for f, t in tcases])
@@ -1251,7 +1401,15 @@ def check_plan(ctx, plan, only=None):
 # pipeline runs whose description names collide / repeat (audit finding G4)
 NAMES_PLAN = {"id": "dupnames", "world_off": 8, "cfg": {"data_type": "nanopore"},
               # (names given in the description for the experiments K, L, M; prefix X)
-              "descs": [(["X2", "D", "D"], ["yaml", "list"]), (["D", "D"], ["yaml"])], "threads": 1}
+              "descs": [(["X2", "D", "D"], ["yaml", "list"]), (["D", "D"], ["yaml"]),
+                        # audit-2 GAP C10-1: two names for one folder; a name that is not a string; a blank name
+                        (["D", "./D"], ["yaml", "list"]), ([7, "E"], ["yaml"]), (["", "E"], ["yaml"])],
+              "threads": 1}
+
+# list-file shapes (audit-2, side finding): labels after a colon, an experiment over several lines, several files on ONE line.
+# Experiments T (two BAM files) and U (one); per description: the lines of every experiment and the stand-alone command line.
+SHAPES_PLAN = {"id": "listshapes", "world_off": 9, "cfg": {"data_type": "nanopore", "read_group": "file_name"}, "threads": 1,
+               "descs": ["labels", "one_line", "one_line_label"]}
 
 
 def names_plan(ctx):
@@ -1259,6 +1417,12 @@ def names_plan(ctx):
     E = lambda name, seed, tails, unm: {"name": name, "seed": seed, "tails": tails, "unmapped": unm, "files": 1}
     return dict(NAMES_PLAN, world=s % 1000 + NAMES_PLAN["world_off"],
                 specs=[E("K", s + 21, 0.5, 1), E("L", s + 22, 0.5, 0), E("M", s + 23, 0.5, 2)])
+
+
+def shapes_plan(ctx):
+    s = ctx.seed
+    E = lambda name, seed, tails, unm, files: {"name": name, "seed": seed, "tails": tails, "unmapped": unm, "files": files}
+    return dict(SHAPES_PLAN, world=s % 1000 + SHAPES_PLAN["world_off"], specs=[E("T", s + 31, 0.5, 1, 2), E("U", s + 32, 0.5, 0, 1)])
 
 
 def _write_named_description(path, mode, ids, names, bams):
@@ -1274,7 +1438,8 @@ def _write_named_description(path, mode, ids, names, bams):
 
 
 def _parsed_names(path, mode, prefix):
-    """the real parser (in-process) on a description file -> experiment names, or None when it exits"""
+    """the real parser (in-process) on a description file -> experiment names, None when it exits (clean refusal), or
+    {"traceback": ...} when it dies with an exception"""
     vlib.repo_on_path()
     import contextlib
     import io
@@ -1287,10 +1452,21 @@ def _parsed_names(path, mode, prefix):
             return [x.prefix for x in InputDataStorage(args).samples]
     except SystemExit:
         return None
+    except Exception as ex:
+        return {"traceback": type(ex).__name__}
+
+
+def _refusal_problem(j):
+    """a description the parser refuses: the run must stop with a message, not with rc 0 and not with a traceback"""
+    if j["rc"] == 0:
+        return "joint_run_ignores_parser_exit", "the parser exits on this description but the pipeline run returned 0"
+    if "Traceback (most recent call last)" in j["log"]:
+        return "joint_run_crashes", "the parser refuses this description, the run ends with a traceback: %s" % j["log"][-300:]
+    return None
 
 
 def check_names_plan(ctx, plan, only=None):
-    """descriptions with repeated names on the real pipeline: either the run stops in the parser (exit, message) or
+    """descriptions with repeated / odd names on the real pipeline: either the run stops in the parser (exit, message) or
     every experiment's folder <out>/<name it got> holds what the stand-alone run of THAT experiment under that name writes"""
     lab = LABS.get(plan)
     cfg = plan["cfg"]
@@ -1300,7 +1476,7 @@ def check_names_plan(ctx, plan, only=None):
         for mode in modes:
             if only and (list(only[0]) != list(names) or only[1] != mode):
                 continue
-            out = lab._out("names_%s_%s" % (mode, "_".join(names)))
+            out = lab._out("names_%s_%d" % (mode, len(jobs)))
             desc = out + (".txt" if mode == "list" else ".yaml")
             use = ids[:len(names)]
             _write_named_description(desc, mode, use, names, lab.bams)
@@ -1309,10 +1485,13 @@ def check_names_plan(ctx, plan, only=None):
                          "parsed": _parsed_names(desc, mode, "X")})
     singles = {}
     for j in jobs:
-        if j["parsed"] is not None and len(j["parsed"]) == len(j["ids"]):
-            for i, n in zip(j["ids"], j["parsed"]):
-                if (i, n) not in singles:
-                    out = lab._out("single_%s_as_%s" % (i, n))
+        # the names the experiments are meant to get: what the parser says, or - when it dies - the printed given names
+        meant = j["parsed"] if isinstance(j["parsed"], list) else ([str(g) for g in j["given"]] if is_tb(j["parsed"]) else None)
+        j["meant"] = meant
+        if meant is not None and len(meant) == len(j["ids"]):
+            for i, n in zip(j["ids"], meant):
+                if (i, n) not in singles and isinstance(n, str) and n not in ("", ".", ".."):
+                    out = lab._out("single_%s_as_%d" % (i, len(singles)))
                     singles[(i, n)] = {"out": out, "home": out + "_home",
                                        "args": ["--threads", "1", "--bam"] + lab.bams[i] + ["-p", n] + M.common_args(lab.paths, cfg)}
     M.run_jobs(list(singles.values()) + jobs)
@@ -1322,9 +1501,16 @@ def check_names_plan(ctx, plan, only=None):
         ctx.count("oracle:named_joint_runs")
         if j["parsed"] is None:
             ctx.count("oracle:named_joint_runs_parser_exit")
-            if j["rc"] == 0:
-                ctx.fail("joint_run_ignores_parser_exit", key, "the parser exits on this description but the pipeline run returned 0")
+            pr = _refusal_problem(j)
+            if pr:
+                ctx.fail(pr[0], key, pr[1])
                 n_fail += 1
+            continue
+        if is_tb(j["parsed"]):
+            ok_alone = [n for i, n in zip(j["ids"], j["meant"]) if singles.get((i, n), {}).get("rc") == 0]
+            ctx.fail("description_kills_invocation", key, "names in the description %r: the invocation dies with %s (rc %s) and no experiment "
+                     "gets its files, while the stand-alone runs named %s finish with rc 0" % (j["given"], j["parsed"]["traceback"], j["rc"], ok_alone))
+            n_fail += 1
             continue
         if j["rc"] != 0:
             ctx.fail("joint_run_crashes", key, "rc=%s %s" % (j["rc"], j["log"][-500:]))
@@ -1334,6 +1520,11 @@ def check_names_plan(ctx, plan, only=None):
             folders = sorted(x for x in os.listdir(j["out"]) if os.path.isdir(os.path.join(j["out"], x)))
             ctx.fail("experiment_names_collide", key, "names in the description %s -> experiments %s; rc 0, output folders %s"
                      % (j["given"], j["parsed"], folders))
+            n_fail += 1
+        folders = [os.path.normpath(os.path.join(j["out"], n)) for n in j["parsed"]]
+        if len(set(folders)) != len(folders) and len(set(j["parsed"])) == len(j["parsed"]):
+            ctx.fail("experiment_folders_collide", key, "names in the description %r -> experiments %r accepted as different, rc 0, but they "
+                     "share an output folder: %s" % (j["given"], j["parsed"], sorted(x for x in os.listdir(j["out"]) if os.path.isdir(os.path.join(j["out"], x)))))
             n_fail += 1
         for i, n in zip(j["ids"], j["parsed"]):
             sj = singles.get((i, n))
@@ -1346,10 +1537,72 @@ def check_names_plan(ctx, plan, only=None):
                 ctx.fail("experiment_folder_holds_other_outputs", dict(key, experiment=i, name=n),
                          "experiment %s (named %s): %s" % (i, n, "; ".join("%s: %s" % d for d in diffs[:3])))
                 n_fail += 1
-        if len(set(j["parsed"])) == len(j["parsed"]) and len(j["parsed"]) > 1:
+        if len(set(folders)) == len(folders) and len(j["parsed"]) > 1:
             probs = M.check_combined(j["out"], j["parsed"])
             if probs:
                 ctx.fail("combined_table_wrong", key, "; ".join("%s: %s" % p for p in probs[:4]))
+                n_fail += 1
+    return n_fail
+
+
+def _shape_lines(shape, lab):
+    """-> (list-file text, {experiment: stand-alone arguments after --bam})"""
+    t, u = lab.bams["T"], lab.bams["U"]
+    if shape == "labels":            # one file per line, every file with a label
+        return ("#T\n%s:rep1\n%s:rep2\n#U\n%s:solo\n" % (t[0], t[1], u[0]),
+                {"T": t + ["--labels", "rep1", "rep2"], "U": u + ["--labels", "solo"]})
+    if shape == "one_line":          # both files of T on one line (the format says: one file per line)
+        return ("#T\n%s %s\n#U\n%s\n" % (t[0], t[1], u[0]), {"T": t + ["--labels", _stem(t[0]), _stem(t[0])], "U": list(u)})
+    if shape == "one_line_label":
+        return ("#T\n%s %s:both\n#U\n%s\n" % (t[0], t[1], u[0]), {"T": t + ["--labels", "both", "both"], "U": list(u)})
+    raise ValueError(shape)
+
+
+def check_shapes_plan(ctx, plan, only=None):
+    """list files whose lines carry labels or several files: refused by the parser (clean exit), or every experiment equals the
+    stand-alone run on ALL the files the description names for it (`--bam f1 f2 --labels …`)"""
+    lab = LABS.get(plan)
+    cfg = plan["cfg"]
+    jobs, singles = [], {}
+    for shape in plan["descs"]:
+        if only and only != shape:
+            continue
+        text, alone = _shape_lines(shape, lab)
+        out = lab._out("shape_" + shape)
+        with open(out + ".txt", "w") as f:
+            f.write(text)
+        a = ["--threads", str(plan["threads"]), "--bam_list", out + ".txt", "-p", "X"] + M.common_args(lab.paths, cfg)
+        jobs.append({"out": out, "args": a, "home": out + "_home", "shape": shape, "parsed": _parsed_names(out + ".txt", "list", "X")})
+        for n, extra in alone.items():
+            so = lab._out("shape_%s_single_%s" % (shape, n))
+            singles[(shape, n)] = {"out": so, "home": so + "_home",
+                                   "args": ["--threads", "1", "--bam"] + extra + ["-p", n] + M.common_args(lab.paths, cfg)}
+    M.run_jobs(list(singles.values()) + jobs)
+    n_fail = 0
+    for j in jobs:
+        key = {"shapes_plan": plan["id"], "shape": j["shape"]}
+        ctx.count("oracle:list_shape_runs")
+        if j["parsed"] is None:
+            ctx.count("oracle:list_shape_runs_parser_exit")
+            pr = _refusal_problem(j)
+            if pr:
+                ctx.fail(pr[0], key, pr[1])
+                n_fail += 1
+            continue
+        if is_tb(j["parsed"]) or j["rc"] != 0:
+            ctx.fail("joint_run_crashes", key, "parser %s, rc=%s %s" % (j["parsed"], j["rc"], j["log"][-400:]))
+            n_fail += 1
+            continue
+        for n in j["parsed"]:
+            sj = singles.get((j["shape"], n))
+            if sj is None or sj.get("rc") != 0:
+                ctx.notes.append("stand-alone run of %s for list shape %s failed: %s" % (n, j["shape"], (sj or {}).get("log", "")[-200:]))
+                continue
+            diffs = M.compare_experiment(sj["out"], j["out"], n)
+            ctx.count("oracle:experiment_comparisons")
+            if diffs:
+                ctx.fail("joint_run_differs_from_standalone", dict(key, experiment=n),
+                         "list-file shape %s, experiment %s vs --bam with all its files: %s" % (j["shape"], n, "; ".join("%s: %s" % d for d in diffs[:3])))
                 n_fail += 1
     return n_fail
 
@@ -1410,14 +1663,14 @@ def oracle(ctx, disagreements, broken):
                 r = flag_property(ctx, (inp["preset"], inp["polya"], inp["read_group"], inp["samples"]))
                 if r:
                     ctx.fail(*r)
-            if d["op"] in ("parse_yaml", "parse_list") and isinstance(inp, dict):
+            if d["op"] in ("parse_yaml", "parse_list", "parse_fqlist") and isinstance(inp, dict):
                 r = parse_property(inp["kind"], inp["prefix"], inp["payload"])
                 if r:
                     ctx.fail("parsed_sample_depends_on_other_entries", {"parse_case": [inp["kind"], inp["prefix"], inp["payload"]]}, r)
-            if d["op"] in ("parse_yaml", "parse_list") and isinstance(inp, dict):
-                r = names_property(inp["kind"], inp["prefix"], inp["payload"])
+            if d["op"] in ("parse_yaml", "parse_list", "parse_fqlist") and isinstance(inp, dict):
+                r = names_property(inp["kind"], inp["prefix"], inp["payload"], inp.get("output", "/vol/out"))
                 if r:
-                    ctx.fail("experiment_names_collide", {"names_case": [inp["kind"], inp["prefix"], inp["payload"]]}, r)
+                    ctx.fail(r[0], {"names_case": [inp["kind"], inp["prefix"], inp["payload"], inp.get("output", "/vol/out")]}, r[1])
             if d["op"] == "combine_table" and isinstance(inp, dict):
                 r = combine_property(inp["full"], inp["tables"])
                 if r:
@@ -1443,12 +1696,12 @@ def oracle(ctx, disagreements, broken):
                 ctx.fail("parsed_sample_depends_on_other_entries", {"parse_case": [kind, pf, pl]}, r)
                 break
         seen_kinds = set()
-        for kind, pf, pl in gen_name_cases(ctx):
-            r = names_property(kind, pf, pl)
+        for kind, pf, pl, out in gen_name_cases(ctx) + [c + ("/vol/out",) for c in gen_parse_cases(ctx) if c[0] != "yaml"]:
+            r = names_property(kind, pf, pl, out)
             ctx.count("oracle:descriptions_any_names")
-            if r and kind not in seen_kinds:            # one report per parser
-                seen_kinds.add(kind)
-                ctx.fail("experiment_names_collide", {"names_case": [kind, pf, pl]}, r)
+            if r and (kind, r[0]) not in seen_kinds:            # one report per parser and failure class
+                seen_kinds.add((kind, r[0]))
+                ctx.fail(r[0], {"names_case": [kind, pf, pl, out]}, r[1])
         for f, t in gen_tables(ctx)[:40]:
             r = combine_property(f, t)
             ctx.count("oracle:combine_tables")
@@ -1457,6 +1710,7 @@ def oracle(ctx, disagreements, broken):
                 break
         # 3. the real pipeline; first the descriptions with repeated names
         check_names_plan(ctx, names_plan(ctx))
+        check_shapes_plan(ctx, shapes_plan(ctx))
         order = seeded_plans + [p for p in plans if p not in seeded_plans]
         for pid in order:
             if ctx.tier == "quick" and ctx.elapsed() > 150 and pid not in seeded_plans:
@@ -1483,6 +1737,10 @@ def replay(ctx, failure):
             return combine_property(inp["combine_case"][0], inp["combine_case"][1]) is not None
         if "names_case" in inp:
             return names_property(*inp["names_case"]) is not None
+        if "shapes_plan" in inp:
+            before = len(ctx.failures)
+            check_shapes_plan(ctx, shapes_plan(ctx), only=inp["shape"])
+            return len(ctx.failures) > before
         if "names_plan" in inp:
             before = len(ctx.failures)
             check_names_plan(ctx, names_plan(ctx), only=(inp["given"], inp["mode"]))
